@@ -4,7 +4,7 @@
 # check(s) against it and write /verif/seeded/<ID>/{patch.diff,demo_test.go,README.md,meta.json}
 export GOFLAGS=-mod=mod GOPROXY=off GOSUMDB=off GOTOOLCHAIN=local
 # usage: seeded.sh <PROP> [<source SEEDED dir> [<name under /verif/seeded>]]
-ID=$1; PROPS="$ID"
+ID=$1; PROPS="$ID $EXTRA_PROPS"
 SRC=${2:-/tmp/agent-$ID/SEEDED}; NAME=${3:-$ID}; DST=/verif/seeded/$NAME
 if [ -f $SRC/patch.diff ]; then
   mkdir -p $DST; cp $SRC/patch.diff $SRC/demo_test.go $DST/; cp $SRC/README.md $DST/README.md 2>/dev/null
